@@ -81,7 +81,7 @@ func (c *Ctx) buildCobraModel() *cobraModel {
 			}
 		})
 		for _, ci := range callsIn(fn) {
-			if !strings.HasSuffix(calleeName(ci.Common()), "cobra.(*Command).AddCommand") {
+			if !strings.HasSuffix(calleeName(ci.Common()), "cobra.Command.AddCommand") {
 				continue
 			}
 			args := ci.Common().Args
@@ -190,7 +190,7 @@ func ruleFlags(c *Ctx) {
 		return
 	}
 	var defs, gets []flagSite
-	const pfx = "github.com/spf13/pflag.(*FlagSet)."
+	const pfx = "github.com/spf13/pflag.FlagSet."
 	for _, fn := range m.fns {
 		for _, ci := range callsIn(fn) {
 			n := calleeName(ci.Common())
@@ -212,7 +212,7 @@ func ruleFlags(c *Ctx) {
 				continue
 			}
 			fsName := calleeName(&fsCall.Call)
-			if !strings.HasSuffix(fsName, "cobra.(*Command).Flags") && !strings.HasSuffix(fsName, "cobra.(*Command).PersistentFlags") {
+			if !strings.HasSuffix(fsName, "cobra.Command.Flags") && !strings.HasSuffix(fsName, "cobra.Command.PersistentFlags") {
 				continue
 			}
 			site := flagSite{fn: fn, name: name, pos: ci.Pos(), persistent: strings.HasSuffix(fsName, "PersistentFlags")}
